@@ -235,3 +235,67 @@ Proof.
   split; [exact (proj1 BookExample.add_vertex4)|].
   split; [exact (proj1 (proj2 (proj2 BookExample.add_vertex4)))|exact BookExample.delaunay2d_value].
 Qed.
+
+(* ---- the slow reference Delaunay2dSlow (model Algo/DelaunaySlow.v, tied bit-exactly incl.
+   degenerate point sets): the lifting argument, over the reals *)
+From Sdfx Require Import Algo.DelaunaySlow Algo.DelaunaySlowR.
+Open Scope R_scope.
+
+(* the plane test of the code is the circle test: for the lifted points, (d-a).((b-a)x(c-b)) equals
+   orientation * (|d-cc|^2 - R^2) for the circumcentre cc *)
+Theorem C20_slow_lift_identity : forall a b c d cc, equidistant cc a b c ->
+  @v3dot ROps (v3sub (L d) (L a)) (v3cross (v3sub (L b) (L a)) (v3sub (L c) (L b)))
+  = orient a b c * (d2 d cc - d2 a cc).
+Proof. exact lift_identity. Qed.
+Print Assumptions C20_slow_lift_identity.
+
+(* one triple is appended iff no other point lies strictly inside the circle through its points *)
+Theorem C20_slow_triple_iff_empty_circle : forall vs i0 i1 i2 cc,
+  orient (P vs i0) (P vs i1) (P vs i2) <> 0 -> equidistant cc (P vs i0) (P vs i1) (P vs i2) ->
+  ((exists t, @slow_tri ROps vs (i0, i1, i2) = Some t) <-> empty_circle vs i0 i1 i2 cc).
+Proof. exact slow_tri_spec. Qed.
+Print Assumptions C20_slow_triple_iff_empty_circle.
+
+(* the whole output, for every point list with no three points collinear: exactly the clockwise,
+   least-index-first triples of distinct points whose circumcircle is empty, each once *)
+Theorem C20_slow_output_spec : forall vs ts,
+  @delaunay2d_slow ROps vs = Some ts -> general_position vs ->
+  forall t0 t1 t2, In (t0, t1, t2) ts <->
+    exists i0 i1 i2, (i0 < i1 < i2 /\ i2 < length vs)%nat /\
+      ((t0, t1, t2) = (i0, i1, i2) \/ (t0, t1, t2) = (i0, i2, i1)) /\
+      orient (P vs t0) (P vs t1) (P vs t2) < 0 /\
+      forall cc, equidistant cc (P vs i0) (P vs i1) (P vs i2) -> empty_circle vs i0 i1 i2 cc.
+Proof. exact slow_spec. Qed.
+Print Assumptions C20_slow_output_spec.
+
+Theorem C20_slow_output_nodup : forall vs ts, @delaunay2d_slow ROps vs = Some ts -> NoDup ts.
+Proof. exact slow_nodup. Qed.
+Print Assumptions C20_slow_output_nodup.
+
+(* any clockwise triple of distinct points with an empty circumcircle (what the exact oracle of the
+   harness establishes for every triangle Delaunay2d returns) is, in its least-index-first rotation
+   (TriangleI.Canonical), a member of the slow output: fast is a subset of slow as canonical sets *)
+Theorem C20_slow_complete_up_to_rotation : forall vs ts a b c,
+  @delaunay2d_slow ROps vs = Some ts -> general_position vs ->
+  (a < length vs)%nat -> (b < length vs)%nat -> (c < length vs)%nat -> a <> b -> b <> c -> a <> c ->
+  orient (P vs a) (P vs b) (P vs c) < 0 -> empty_about vs a b c ->
+  In (a, b, c) ts \/ In (b, c, a) ts \/ In (c, a, b) ts.
+Proof. exact slow_complete. Qed.
+Print Assumptions C20_slow_complete_up_to_rotation.
+
+(* circumcentres exist and are unique for non-collinear points: the statements above are not vacuous *)
+Theorem C20_circumcentre_exists_unique : forall a b c, orient a b c <> 0 ->
+  (exists cc, equidistant cc a b c) /\ (forall cc cc', equidistant cc a b c -> equidistant cc' a b c -> cc = cc').
+Proof. intros a b c H. split; [exact (circumcentre_exists a b c H) | intros cc cc'; exact (circumcentre_unique a b c cc cc' H)]. Qed.
+Print Assumptions C20_circumcentre_exists_unique.
+
+(* fewer than three points: the error *)
+Example C20_slow_error : @delaunay2d_slow ROps [mkV2 0 0; mkV2 1 0] = None.
+Proof. reflexivity. Qed.
+
+(* a concrete run (exact rationals): five points, four triangles = 2n-2-h with h = 4 hull points *)
+Example C20_slow_example :
+  let p (x y : Z) := @mkV2 Num.QInst.QOps (QArith_base.Qmake x 1) (QArith_base.Qmake y 1) in
+  @delaunay2d_slow Num.QInst.QOps [p 0 0; p 4 0; p 0 3; p 5 5; p 2 1]%Z
+  = Some [(0, 4, 1); (0, 2, 4); (1, 4, 3); (2, 3, 4)]%nat.
+Proof. vm_compute. reflexivity. Qed.
